@@ -78,6 +78,31 @@ W.append({'kind': 'state', 'properties': ['C15', 'C16'],
           'ro': to_text(ro_create(ro_head() + [story('A', meta=payload(duration='3')), story('B', meta=E('mosExternalMetadata', E('mosSchema', text='x'))), story('C', meta=payload(duration='0')), story('D', meta=payload(text_time='1.5'))])),
           'meta': {'kind': 'corpus-F16', 'what': 'mosExternalMetadata without mosPayload; zero duration'}})
 
+# ---- added later (appended so that earlier file names stay as they are)
+def add_late(fid, props, msg, ro, what):
+    W.append({'kind': 'add', 'properties': props, 'ro': to_text(ro), 'msg': to_text(msg),
+              'meta': {'cls': msg[3].tag, 'witness': fid, 'what': what}})
+
+
+ro_noid = ro_create(ro_head() + [story('A', body=[item('a1')]), story(ABSENT, body=[item('a1')], slug='no id'), story('B')])
+add_late('F28', ['C05', 'C12', 'C06'], element_action(5, 'DELETE', None, [[ref('storyID', 'A'), ref('storyID', 'ZZ')]]), ro_noid,
+         'EA DELETE of A and an unknown ID past a story without storyID: A was deleted, then AttributeError')
+add_late('F28b', ['C05', 'C12', 'C03'], item_delete(5, 'B', ['a1']), ro_noid, 'lookup of a story that lies after a story without storyID')
+# witnesses of seeded changes (round 2)
+add_late('S2-C01', ['C01'], element_action(5, 'INSERT', [ref('storyID', 'A')], [[gens.new_story('N1')]]),
+         gens.make_ro(['A', 'B'], layout='bare'), 'insert before the story that is the first child of roCreate')
+add_late('S2-C02', ['C02'], element_action(5, 'SWAP', [ref('storyID', 'A')], [[ref('itemID', 'a3'), ref('itemID', 'a1')]]),
+         ro_create(ro_head() + [story('A', body=[item('a1'), item('a2'), item('a3'), item('a4')])]), 'reverse-named swap with an item between')
+add_late('S2-C05', ['C05', 'C12'], element_action(5, 'MOVE', [ref('storyID', 'A')], [[ref('storyID', 'B'), ref('storyID', 'C'), ref('storyID', 'B')]]),
+         base_ro(), 'EA story MOVE with a repeated source')
+add_late('S2-C03', ['C03', 'C05'], item_insert(5, None, None, [gens.new_item('n')]),
+         gens.make_ro(['A', 'B'], layout='blankids'), 'roItemInsert with blank references against a blank-ID placeholder story')
+W.append({'kind': 'state', 'properties': ['C15', 'C16'],
+          'ro': to_text(ro_create(ro_head() + [story('A', meta=payload(duration='3')),
+                                               story('B', meta=E('mosExternalMetadata', E('mosSchema', text='x'), E('mosPayload', E('StoryDuration', text='0'), E('TextTime', text='7'), E('MediaTime', text='38')))),
+                                               story('C', meta=payload(duration='4'))])),
+          'meta': {'kind': 'corpus-S2-C16', 'what': 'explicit StoryDuration 0 beside TextTime / MediaTime'}})
+
 d = os.path.join(ROOT, 'corpus')
 os.makedirs(d, exist_ok=True)
 for f in os.listdir(d):
